@@ -235,6 +235,15 @@ C02 = {
     'invoke_raw_array_arg': ('int (&raw)[4]', 'sb.INTERNAL_invoke_with_func_ptr<decltype(lib_f_ip)>("f", nullptr, raw);', True),
     'invoke_raw_string_arg': ('', 'sb.INTERNAL_invoke_with_func_ptr<void(const char*)>("f", nullptr, "literal");', True),
     'invoke_app_pointer_wrong_sandbox': ('app_pointer<int*, S2>& ap', 'sb.INTERNAL_invoke_with_func_ptr<decltype(lib_f_ip)>("f", nullptr, ap.to_tainted());', True),
+    'internal_factory_raw_ptr': ('int* raw', 'auto t = tainted<int*, S>::internal_factory(raw); (void)t;', True),
+    'internal_factory_raw_fn': ('Fn raw', 'auto t = tainted<Fn, S>::internal_factory(raw); (void)t;', True),
+    'tagged_ctor_raw_ptr': ('int* raw', 'const void* tag = nullptr; tainted<int*, S> t(raw, tag); (void)t;', True),
+    'tainted_raw_value_ref_write': ('int* raw, tainted<int*, S>& t', 't.get_raw_value_ref() = raw;', True),
+    'tvol_sandbox_value_ref_write': ('tainted_volatile<int*, S>& v', 'v.get_sandbox_value_ref() = 0x1234;', True),
+    'tvol_default_ctor': ('', 'tainted_volatile<int*, S> v; (void)v;', True),
+    'tvol_copy_ctor': ('tainted_volatile<int*, S>& o', 'tainted_volatile<int*, S> v(o); (void)v;', True),
+    'tainted_reinterpret_from_raw': ('int* raw', 'auto t = sandbox_reinterpret_cast<int*>(raw); (void)t;', True),
+    'tainted_ptr_memcpy_src_raw_into_sbx_ok': ('tainted<char*, S>& d, char* raw', 'rlbox::memcpy(sb, d, raw, 4u);', None),
     # positive controls (must compile)
     'ok_tainted_ptr_copy': ('tainted<int*, S>& o', 'tainted<int*, S> t = o; (void)t;', False),
     'ok_tainted_ptr_null': ('', 'tainted<int*, S> t = nullptr; (void)t;', False),
